@@ -27,7 +27,10 @@ def r_C17fgh(root):
     for q in ("GlobalModelRepository.load_model_using_search_path", "GlobalModelRepository.load_models_using_filepattern"):
         fn = find(t, q); fi = sem.info(fn); cfg = fi.cfg; inst += 1
         ups = [n for n in cfg.nodes if n.ast is not None and n.kind in ("stmt",) and any(callee_name(c) == "update_model_in_repo_based_on_filename" for c in calls(n.ast))]
-        lds = [n for n in cfg.nodes if n.ast is not None and n.kind in ("stmt", "return") and any(callee_name(c) == "load_model" for c in calls(n.ast))]
+        # load_model called directly or through a name bound to functools.partial(<repo>.load_model, ...)
+        bound = {tg.id for a_ in own_nodes(fn) if isinstance(a_, ast.Assign) and isinstance(a_.value, ast.Call) and callee_name(a_.value) == "partial" and a_.value.args and isinstance(a_.value.args[0], ast.Attribute) and a_.value.args[0].attr == "load_model" for tg in a_.targets if isinstance(tg, ast.Name)}
+        def _is_load(c): return (callee_name(c) == "load_model") or (isinstance(c.func, ast.Name) and c.func.id in bound)
+        lds = [n for n in cfg.nodes if n.ast is not None and n.kind in ("stmt", "return") and any(_is_load(c) for c in calls(n.ast))]
         if not lds: raise AnalysisError("%s: load_model call not found" % q)
         mparam = "model"
         bad = None
@@ -121,7 +124,7 @@ def r_C17i(root):
             if not ok:
                 for pr in ("C17", "C16"):
                     out.append(Finding(pr, "C17.i", rel, q, " ".join(ast.unparse(n).split())[:100], "a model is given an existing repository object (%s) instead of one of its own: the set of files visible from a model (local_models) is then shared with whoever owns that object and grows with every load" % ast.unparse(n.value)[:60], witness="global_repository=True: load a file that imports lib, then a file that uses lib's names without importing it"))
-    if inst < 3: raise AnalysisError("model repository stores: only %d found (metamodel callback, GlobalModelRepository.pre_ref_resolution_callback, ImportURI.load_models expected)" % inst)
+    if inst < 2: raise AnalysisError("model repository stores: only %d found (GlobalModelRepository.pre_ref_resolution_callback and ImportURI.load_models expected at least)" % inst)
     return inst, out
 
 def r_C17jkl(root):
